@@ -23,6 +23,7 @@ RULE = ("cases = (frame with 1-3 geometry columns of any kind x subtype built fr
         "geometry; distinct = hash of (frame, route, options)")
 ASSUMPTIONS = ["for the Dask route the reference is ddf.compute() before writing (from_pandas may sort)",
                "pyarrow to_pylist is a faithful independent read-back"]
+SPLIT_KINDS = True         # thorough tier: one shard per geometry kind
 DECIDING_COUNTERS = ["roundtrips_checked"]
 
 
